@@ -9,8 +9,15 @@
     kind 5: a whole run: the names of the table-key fields, per table the table key
             the in-process Tables report and the abstract table; the bytes
             Tables.ToText wrote, every spreadsheet row Tables.ToCSV wrote and its
-            warning stream (the header lines are derived, not given). *)
+            warning stream (the header lines are derived, not given);
+    kind 6: per real table the unit, ToText's bytes and per row the centres of its
+            cells: the centres the text prints are read back and judged by the
+            shared-scale clause of C10 (RunC10.rtab_prop: one precision and
+            prefix per row, that of the least non-zero |centre|, every printed
+            centre within half a unit of its last digit), against
+            Model/RowScale.v (RunC10.rtab_corr). *)
 From Perf Require Import Base.Bytes Base.Sx Model.Runes Model.TextTab Model.KeyHeader Model.LayoutObs Model.Render Model.RenderRun.
+From Perf Require Corr.RunC10.
 
 Definition as_align (s : sx) : option align :=
   match s with SZ 0 => Some ALeft | SZ 1 => Some ACenter | SZ 2 => Some ARight | _ => None end.
@@ -88,7 +95,8 @@ Inductive case :=
 | KBench (tables : list (nat * list bytes))        (* header line count, table lines *)
 | KTextCsv (tables : list tc_table)                (* abstract table + real text + real CSV *)
 | KCsvTables (tabs : list (list bytes * rtable)) (recs : list (list bytes)) (warn : bytes)
-| KRun (fields : list bytes) (tabs : list (list bytes * rtable)) (text : bytes) (recs : list (list bytes)) (warn : bytes).
+| KRun (fields : list bytes) (tabs : list (list bytes * rtable)) (text : bytes) (recs : list (list bytes)) (warn : bytes)
+| KRowScale (tabs : list RunC10.obs_rtab).
 
 Definition decode (s : sx) : option case :=
   match s with
@@ -109,6 +117,7 @@ Definition decode (s : sx) : option case :=
       do fields <- as_list as_b fields;
       do tabs <- as_list (as_pair (as_list as_b) as_rtable) tabs; do recs <- as_list (as_list as_b) recs;
       Some (KRun fields tabs text recs warn)
+  | SL [SZ 6; tabs] => do tabs <- RunC10.as_rtabs tabs; Some (KRowScale tabs)
   | _ => None
   end.
 
@@ -279,6 +288,7 @@ Definition corr_ok (c : case) : bool :=
          | Some lines => run_text_corr true mt lines
          | None => false
          end
+  | KRowScale tabs => forallb RunC10.rtab_corr tabs
   end.
 
 Definition prop_ok (c : case) : bool :=
@@ -303,6 +313,7 @@ Definition prop_ok (c : case) : bool :=
   | KTextCsv tabs => forallb (fun t => text_csv_ok (tc_start t) (tc_text t) (tc_recs t) (tc_warn t)) tabs
   | KCsvTables _ recs warn => csv_tables_obs_ok recs warn
   | KRun fields tabs text recs warn => run_ok fields tabs text recs warn
+  | KRowScale tabs => forallb RunC10.rtab_prop tabs
   end.
 
 Definition run_case (s : sx) : N :=
